@@ -1,11 +1,22 @@
 BASELINE_OFF = ("cd /repo && PATH=/root/go/pkg/mod/golang.org/toolchain@v0.0.1-go1.26.2.linux-amd64/bin:$PATH "
                 "GOTOOLCHAIN=local GOFLAGS=-mod=mod GOPROXY=off GOSUMDB=off go test -json -vet=off -count=1 -timeout 25m ./...")
-SOURCE_COMMITS = []
+SOURCE_COMMITS = []  # no hook commits in /repo: oracle files are injected into scratch copies
+FIX_COMMITS = ["762de83", "76f4952", "32f4a4f"]
 NOTES = ("All checks: bin/check <id>. Each run regenerates coq/Gen from /repo, rebuilds the Coq project (full .vo), rebuilds garble "
          "from /repo's working tree in a scratch copy, runs the correspondence/e2e ties and rewrites evidence/<id>.json. "
          "Known findings: KNOWN_FINDINGS.txt.")
 NOT_APPLICABLE = {}
 CLAIMED = {
+    "C20": {
+        "text": "Theorems over tables regenerated from main.go and from the go command in use: garble's flag/package split equals the go "
+                "command's (package flag's parseOne) for every accepted argv of any length and spelling; the split is a partition so the go "
+                "command receives the user's argv unchanged; forwarded flags are exactly the build flags with values; garble flags in flag "
+                "position are rejected and no accepted command line is; reverse/map report non-forwarded flags. F9 (go test flags after "
+                "packages) is kept as a refuted statement + known finding. Tied by oracle and stub-go black-box correspondence.",
+        "note": "Trusted: Coq kernel; go_parse as transcription of package flag's rule; `go help` output + arity probing of the real go; "
+                "injected oracle; stub go. No axioms.",
+        "technique": "Coq proof over regenerated flag tables (translator) + in-Coq correspondence with splitFlagsFromArgs/filterForwardBuildFlags and stub-go argv capture",
+    },
     "C16": {
         "text": "Theorems (for all salts, seeds, names): name shape 6..12 of [A-Za-z0-9_], no leading digit, export preserved, purity, "
                 "and the exact prefix-collision condition; model tied to hash.go by a constants translator and by correspondence of "
